@@ -19,7 +19,8 @@ open TraitsVerif.Model.Legacy
 
 /-- Every operation of a history (reassignment of a link to a fresh object or
 `None`, list and dict reassignment, slice assignment / append / insert / delete /
-clear with fresh objects, dict `__setitem__` / `__delitem__` / `clear`) preserves
+clear with fresh objects, dict `__setitem__` / `update` / `|=` / `setdefault` /
+`__delitem__` / `pop` / `popitem` / `clear`) preserves
 tree-shapedness. -/
 theorem C16_tree_preserved {h : Heap} {op : Op} {m : Mut} (ht : TreeShaped h)
     (hm : mutate h op = some m) : TreeShaped m.h' := by
@@ -200,9 +201,9 @@ theorem C16_intermediate_items_partial (N : Name) {h₀ : Heap} (ht : TreeShaped
 /-- FULL-STRENGTH statement for container mutations (NOT a theorem of the code as
 it is): every change of a `.` link is reported.  False because `ListenerParser`
 gives only the FIRST item the handler's type and every later item `ANY_LISTENER`
-(traits_listener.py:1057-1061, 1185-1192, "bug-for-bug compatibility",
+(traits_listener.py:1062-1066, 1190-1197, "bug-for-bug compatibility",
 enthought/traits#537), and `_register_list/_register_dict` attach the handler to
-`<name>_items` only for `ANY_LISTENER` (traits_listener.py:691-699, 786-794). -/
+`<name>_items` only for `ANY_LISTENER` (traits_listener.py:696-704, 791-799). -/
 def C16_intermediate_items_full : Prop :=
   ∀ (N : Name) (h₀ : Heap) (_ : TreeShaped h₀) (ops : List Op) (op : Op) (a : Attr),
     (mutate (run N (start h₀) ops).h op).map (·.trait) = some (.items a) →
